@@ -1060,16 +1060,17 @@ def obligations_new(case):
         st.assume(case.M >= 1, IGN != NoneC)
         cache_ref = kcache.new_cache(I, st, case.kcls)
         kw2 = dict(kw)
-        kw2.update({'cache': cache_ref, 'keymap': case.keymap, 'ignore': Opaque(IGN), 'tol': Opaque(TOL), 'deep': BoolV(False)})
+        kw2.update({'cache': cache_ref, 'keymap': case.keymap, 'ignore': Opaque(IGN), 'tol': Opaque(TOL), 'deep': BoolV(True)})
         I.cur_func = fn
         ok, why = False, ''
         forwarded = {}
         try:
             res = I.call(st, case.cls, CallArgs(list(pos), kw2))
-            if len(res) != 1 or isinstance(res[0][1], Exc):
-                why = 'construction forks or raises: %r' % ([r for _, r in res],)
-            else:
-                s1, obj = res[0]
+            if not res or any(isinstance(r, Exc) for _, r in res):
+                why = 'construction raises: %r' % ([r for _, r in res],)
+            oks = []
+            for (s1, obj) in ([] if why else res):       # (a fork into several paths: every one of them is checked)
+                ok = False
                 o = s1.get(obj) if isinstance(obj, Ref) else None
                 cls = getattr(o, 'cls', None)
                 state = o.attrs.get('__state__') if o is not None and hasattr(o, 'attrs') else None
@@ -1091,7 +1092,7 @@ def obligations_new(case):
                     why = 'recorded maxsize is %r' % (ms,)
                     # whichever class the request is handed to, it gets the whole configuration
                     for (fld, want_v, owner) in (('cache', cache_ref, 'C08'), ('keymap', case.keymap, 'C09'), ('ignore', Opaque(IGN), 'C11'),
-                                                 ('tol', Opaque(TOL), 'C12'), ('deep', BoolV(False), 'C12')):
+                                                 ('tol', Opaque(TOL), 'C12'), ('deep', BoolV(True), 'C12')):
                         got = items.get(fld)
                         if isinstance(want_v, Opaque):
                             same = isinstance(got, Opaque) and z3.eq(got.term, want_v.term)
@@ -1099,7 +1100,10 @@ def obligations_new(case):
                             same = isinstance(got, BoolV) and z3.is_true(z3.simplify(got.term == want_v.term))
                         else:
                             same = got is want_v or got == want_v
-                        forwarded[fld] = (bool(same), owner, '%r recorded, %r given' % (got, want_v))
+                        prev = forwarded.get(fld, (True,))[0]
+                        forwarded[fld] = (bool(same) and prev, owner, '%r recorded, %r given' % (got, want_v))
+                oks.append(bool(ok))
+            ok = bool(oks) and all(oks)
         except Unsupported as e:
             why = 'unsupported: %s' % e
         obs.append(Obligation('%s/dispatch[%s]' % (fn, label), [], z3.BoolVal(bool(ok)), prop='C05', func=fn, path=label + ' | ' + why,
